@@ -255,4 +255,87 @@ theorem sysSave_frame (s : State) (t) (h : MI s) :
     rw [saveLoop_eq _ _ _ (by simp; omega)]; simp
   · simp
 
+theorem setPc_QI {s : State} {t p} (h : QI s) : QI (setPc s t p) := QI_congr h rfl rfl rfl
+theorem setEv_QI {s : State} {w e} (h : QI s) : QI (setEv s w e) := QI_congr h rfl rfl rfl
+theorem touch_QI {s : State} {w} (h : QI s) : QI (touch s w) := by
+  unfold touch; split
+  · exact h
+  · exact QI_congr h rfl rfl rfl
+theorem sysUnlock_QI {s : State} {t} (h : QI s) : QI (sysUnlock s t) := by
+  have f := sysUnlock_frame s t; exact QI_congr h f.1 f.2.1 f.2.2.1
+theorem sysLock_QI {s s' : State} {t} (h : QI s) (hs : sysLock s t = some s') : QI s' := by
+  have f := sysLock_frame hs; exact QI_congr h f.1 f.2.1 f.2.2.1
+theorem sysRestore_QI {s s' : State} {t} (h : QI s) (hs : sysRestore s t = some s') : QI s' := by
+  have f := sysRestore_frame hs; exact QI_congr h f.1 f.2.1 f.2.2.1
+theorem sysSave_QI {s : State} {t} (h : QI s) (hm : MI s) : QI (sysSave false s t) := by
+  have f := sysSave_frame s t hm; exact QI_congr h f.1 f.2.1 f.2.2.1
+
+theorem stepIdle_QI {s s' : State} {t : Tid} {op rest} (h : QI s) (hm : MI s)
+    (hs : stepIdle false s t op rest = some s') : QI s' := by
+  have h0 : QI { s with prog := upd s.prog t rest } := QI_congr h rfl rfl rfl
+  have hm0 : MI { s with prog := upd s.prog t rest } := MI_congr hm rfl rfl rfl
+  unfold stepIdle at hs
+  dsimp only at hs
+  split at hs
+  · exact sysLock_QI h0 hs
+  · cases hs; exact sysUnlock_QI h0
+  · cases hs; exact sysSave_QI h0 hm0
+  · exact sysRestore_QI h0 hs
+  · simp only [Option.map_eq_some_iff] at hs
+    obtain ⟨s1, h1, rfl⟩ := hs
+    exact setPc_QI (sysLock_QI h0 h1)
+  · simp only [Option.map_eq_some_iff] at hs
+    obtain ⟨s1, h1, rfl⟩ := hs
+    exact setPc_QI (sysLock_QI h0 h1)
+  · simp only [Option.map_eq_some_iff] at hs
+    obtain ⟨s1, h1, rfl⟩ := hs
+    exact setPc_QI (sysLock_QI h0 h1)
+  · -- push
+    split at hs
+    · cases hs
+      apply setPc_QI
+      unfold QI at *; simp only; rw [h, List.append_assoc]
+    · cases hs
+  · -- pop
+    split at hs
+    · split at hs
+      · cases hs; exact setPc_QI (QI_congr h rfl rfl rfl)
+      · rename_i p x r hq
+        cases hs
+        apply setPc_QI
+        unfold QI at *; simp only at hq ⊢; rw [h, hq]; simp
+    · cases hs
+  · -- size
+    split at hs
+    · cases hs; exact setPc_QI (QI_congr h rfl rfl rfl)
+    · cases hs
+
+theorem step_QI {s s' : State} {t : Tid} (h : QI s) (hm : MI s) (hs : step false s t = some s') : QI s' := by
+  unfold step at hs
+  split at hs
+  · split at hs
+    · cases hs
+    · exact stepIdle_QI h hm hs
+  all_goals
+    (try dsimp only at hs)
+    (try simp only [Bool.false_eq_true, if_false] at hs)
+    (repeat' split at hs)
+  all_goals first
+    | contradiction
+    | (cases hs; done)
+    | (cases hs
+       repeat (first
+         | exact h
+         | exact sysUnlock_QI h
+         | with_reducible apply setPc_QI
+         | with_reducible apply setEv_QI
+         | with_reducible apply touch_QI
+         | exact QI_congr h rfl rfl rfl
+         | split))
+
+theorem reach_QI {prog q0 s} (h : Reach prog q0 s) : QI s := by
+  induction h with
+  | init => simp [QI, init]
+  | step hr hs ih => exact step_QI ih (reach_MI hr) hs
+
 end Igris.C20
